@@ -25,7 +25,7 @@ ASSUMPTIONS = [
     "nothing else runs on the reactor, so 'after every Deferred has fired' is checked as: no during/after trigger has run "
     "while a before-Deferred is unfired, and all of them have run by the time the last Deferred firing returns",
 ]
-MIN = {"quick": {"evaluations": 400000, "nontrivial": 300000, "outcomes": 8},
+MIN = {"quick": {"evaluations": 380000, "nontrivial": 380000, "outcomes": 14},
        "thorough": {"evaluations": 4000000, "nontrivial": 3000000, "outcomes": 8}}
 
 PHASES = ("before", "during", "after")
@@ -165,6 +165,9 @@ class H:
         try:
             self.reactor.removeSystemEventTrigger(x.handle)
         except (ValueError, KeyError, TypeError) as e:
+            if already:
+                # Twisted announces that removing an already-fired trigger will raise in a future version: not constrained
+                return
             self.flag("SystemEvent:removeSystemEventTrigger-raised-%s-%s" % (type(e).__name__, where), self.describe())
 
     # -- driver ----------------------------------------------------------
